@@ -1,5 +1,10 @@
 """Source of MANIFEST.json (run ./tools_manifest.py after editing)."""
+MIR_NOTE = ('Bounded symbolic execution, not a proof. Trusted: rustc nightly MIR dump of the working tree, the mirsym interpreter and its std models, '
+            'the OpenMLS/storage environment contracts listed in the evidence, z3. Callee results are nondeterministic; loops and symbolic lists are '
+            'unrolled to the stated bounds with an unwinding check (a path hitting the bound makes the check BROKEN, not passing).')
 ENGINES = [
+    dict(name='mirsym', path='/verif/mirsym', serves_properties=['C05'],
+         kind_free_text='E3/E3c: symbolic execution (z3) of the textual MIR of the repository crates, regenerated from the working tree on every run'),
     dict(name='kani-direct', path='/verif/kani/direct', serves_properties=['C18'],
          kind_free_text='E1: Kani 0.68 / CBMC 6.11 harnesses (kani::any inputs, unwind bounds, cover! vacuity witnesses) over the compiled real code'),
 ]
@@ -7,6 +12,12 @@ NOTES = ('Solver-based checking of the real code: CBMC via Kani over compiled Ru
          "repository's MIR and SQL. Every claim is bounded; see DESIGN.md. Exit 2 = broken/inconclusive machinery, never a VIOLATION.")
 PENDING = 'check not built yet in this revision of /verif (work in progress; see DESIGN.md section 5 for the planned obligations)'
 CHECKS = [
+    dict(id='C05', engine='mirsym', design_ref='DESIGN.md section 5, C05',
+         technique='symbolic execution of the compiler MIR with z3 (path enumeration + per-path assertions), uninterpreted environment calls',
+         text='Every feasible path of validate_commit_authorization, is_pure_self_update_commit (proposal lists up to 3/4, all proposal kinds and senders symbolic), '
+              'process_commit, process_proposal, the identity validators and the sender-side admin gates is enumerated by z3-guarded symbolic execution of the MIR; '
+              'the authorisation truth table, whitelist, validate-before-snapshot-before-merge order, proposal handling and identity checks are asserted on each.',
+         note=MIR_NOTE + ' Not covered: what OpenMLS sweeps into a commit from its pending-proposal queue; MLS-level authentication of the sender.'),
     dict(id='C18', engine='kani-direct', design_ref='DESIGN.md section 5, C18',
          technique='bounded model checking (Kani/CBMC) of the real comparators and pointer update over symbolic keys',
          text='CBMC decides, for all 64-bit timestamps and 32-byte ids, that the two listing comparators are strict total orders equal to the '
@@ -20,4 +31,4 @@ NOT_APPLICABLE = [
     dict(property_id='C14', reason='needs core::fmt executed on every path or a taint analysis; formatting is what this family stubs out'),
     dict(property_id='C19', reason='thread interleavings: Kani sequentialises atomics and rejects thread::spawn; parking_lot crashes the Kani compiler; no concurrency engine in this family here'),
 ] + [dict(property_id=p, reason=PENDING) for p in
-     ['C01', 'C02', 'C04', 'C05', 'C06', 'C07', 'C08', 'C09', 'C10', 'C11', 'C12', 'C15', 'C16', 'C17', 'C20']]
+     ['C01', 'C02', 'C04', 'C06', 'C07', 'C08', 'C09', 'C10', 'C11', 'C12', 'C15', 'C16', 'C17', 'C20']]
